@@ -235,6 +235,40 @@ func TestVerifC10SM4(t *testing.T) {
 						r.Eval(fmt.Sprintf("%s|prefix-sweep|len%%64=%d", pn, pl%64))
 					}
 				}
+				// ---------------- all inputs as sub-slices of ONE record (spare capacity reaches into the next field)
+				{
+					for order := 0; order < 3; order++ {
+						parts := map[string][]byte{"nonce": c.nonce, "aad": c.aad, "pt": c.pt, "ct": sealed}
+						names := [][]string{{"nonce", "aad", "pt", "ct"}, {"ct", "pt", "aad", "nonce"}, {"aad", "ct", "nonce", "pt"}}[order]
+						var record []byte
+						off := map[string][2]int{}
+						for _, nme := range names {
+							off[nme] = [2]int{len(record), len(record) + len(parts[nme])}
+							record = append(record, parts[nme]...)
+						}
+						record = append(record, 0xEE, 0xEE, 0xEE, 0xEE, 0xEE, 0xEE, 0xEE, 0xEE)
+						snapshot := append([]byte{}, record...)
+						get := func(nme string) []byte { o := off[nme]; return record[o[0]:o[1]] }
+						var out, back []byte
+						var oerr error
+						p, msg, _, _ := hk.Try(func() {
+							out = a.Seal(nil, get("nonce"), get("pt"), get("aad"))
+							back, oerr = a.Open(nil, get("nonce"), get("ct"), get("aad"))
+						})
+						d := c.detail()
+						d["field_order"] = names
+						if p {
+							d["panic"] = msg
+							r.Violation("gcm-panics-on-record-subslices:"+pn, d)
+						} else if !bytes.Equal(out, sealed) || oerr != nil || !bytes.Equal(back, c.pt) {
+							r.Violation("gcm-wrong-on-record-subslices:"+pn, d)
+						}
+						if !bytes.Equal(record, snapshot) {
+							r.Violation("gcm-writes-into-caller-record:"+pn, d)
+						}
+					}
+					r.Eval(fmt.Sprintf("%s|record-subslices|pt[%s]", pn, kernelClass(len(c.pt))))
+				}
 				// ---------------- in-place idioms
 				{
 					buf := make([]byte, len(c.pt), len(c.pt)+c.tag+rng.Intn(3))
@@ -317,7 +351,6 @@ func whichBuf(addr uintptr, m map[string]*hk.GBuf) string {
 	}
 	return "elsewhere"
 }
-
 
 func min(a, b int) int {
 	if a < b {
